@@ -133,6 +133,7 @@ def library(sc):
     return {p: (SUBT if p.endswith("subt.xbb") else SUB) for p in incs}
 
 
+@common.guarded("C15")
 def judge(mk, sc):
     text = lang.render(sc)
     try:
